@@ -312,6 +312,7 @@ static void __attribute__((noinline)) boxcont_build(long n) {
   }
   if (len(a) > 1) ref(get(a, $I(1)), NULL);               /* emptied: the Node it owned is plain garbage now */
   if (len(l) > 0) ref(get(l, $I(0)), NULL);
+  var ur = alloc(Range); (void)ur;                        /* allocated, never constructed: its finaliser deletes a NULL member */
   var e1 = alloc(Box); (void)e1;                          /* a heap Box that never owned anything */
   var e2 = new(Box, new(Node, $I(1000 + n))); ref(e2, NULL);    /* ... and one that gave its object up */
 }
